@@ -36,7 +36,9 @@ impl Srv {
         let mut n = 0;
         loop {
             let mut buf: Vec<DelayedAction> = Vec::with_capacity(16);
-            match self.delayed.recv_many(&mut buf).now_or_never() {
+            // `unconstrained`: tokio's cooperative budget would otherwise make recv_many report Pending
+            // although an action is queued once the budget of the current poll is used up.
+            match tokio::task::unconstrained(self.delayed.recv_many(&mut buf)).now_or_never() {
                 Some(k) if k > 0 => {
                     for da in buf.iter() {
                         let mut pw = self.idms.proxy_write(ct).await.expect("proxy_write");
